@@ -248,7 +248,7 @@ func TestVerifC11DNS(t *testing.T) {
 	defer rec.Close()
 	h := verifC11DNSSetup(t, true)
 	h.rec = rec
-	kit.C11Drive(rec, kit.C11Entry{Name: verifC11DNSEntry, N: kit.Tier(40000, 2000000), Workers: 4, Budget: 120 * time.Second,
+	kit.C11Drive(rec, kit.C11Entry{Name: verifC11DNSEntry, N: kit.Tier(40000, 500000), Workers: 4, Budget: 120 * time.Second,
 		Gen: verifC11DNSGen, Exec: h.verifExec, SampleEvery: 5000})
 	// everything that was sent must have been read and fully processed before the verdict "survived"
 	uc, err := net.DialUDP("udp", nil, h.addr)
